@@ -7,7 +7,7 @@
 //!        TWENTY_FIRST_MERKLE_TREE_PARALLELIZATION_CUTOFF=<cutoff> (or removed) and RAYON_NUM_THREADS=<threads>,
 //!        because the cut-off is a lazy static read once per process.  The child runs under a timeout; a hang is
 //!        reported as `timeout` + ORACLE-FAIL with the op line (which carries the environment) as replay.
-use crate::registry::c04::{boundary_cross, gen_indices, rand_leaves, ref_tree};
+use crate::registry::c04::{boundary_cross, fmt_paths, gen_indices, paths_reply, rand_digest, rand_leaves, ref_needed, ref_tree, verify_reply};
 use crate::util::*;
 use std::io::{Read, Write};
 use std::process::{Command, Stdio};
@@ -113,6 +113,33 @@ fn run_child(cutoff: &Arg, threads: usize, mask: &Option<String>, line: &str) ->
 pub fn run_mtb(op: &str, a: &[Arg], st: &mut Stats) -> Option<Out> {
     Some(match (op, a) {
         ("build", [ds]) => tree_reply(&ds.digests()?, st),
+        // honest proof of the virtual constant tree of height h (all 2^h leafs = d): node on level k is d_k,
+        // d_0 = d, d_{k+1} = hash_pair(d_k, d_k); nothing is enumerated, so the maximum height 31 is reachable
+        ("vproof", [h, d, is]) => {
+            let (h, d) = (h.usize()?, d.digest()?);
+            let is: Vec<usize> = is.list()?.iter().map(|x| x.usize()).collect::<Option<_>>()?;
+            if h > 62 || is.iter().any(|&i| i >= 1usize << h) {
+                return Some(Out::ok("err"));
+            }
+            let mut levels = vec![d];
+            for k in 0..h { levels.push(Tip5::hash_pair(levels[k], levels[k])); }
+            let mut sorted = is.clone();
+            sorted.sort_unstable();
+            sorted.dedup();
+            let auth: Vec<Digest> = ref_needed(h, &sorted).iter().map(|&k| levels[h - k.ilog2() as usize]).collect();
+            let leafs: Vec<(usize, Digest)> = is.iter().map(|&i| (i, d)).collect();
+            let (vr, vf) = verify_reply(h, &leafs, &auth, levels[h], st);
+            let (pr, pf) = paths_reply(h, &leafs, &auth, st);
+            st.hit(&format!("vproof:height={}", h));
+            let want_v = is.is_empty() || h <= 31;
+            let want_p = if h <= 31 { format!("ok:{}", fmt_paths(&vec![levels[..h].to_vec(); is.len()])) } else { "err".to_string() };
+            let mut o = Out::ok(format!("ok:{}|{}", vr, pr))
+                .with_oracle(vr == format!("ok:{}", want_v), format!("honest proof for the constant tree of height {} (maximum supported: 31): verify says {}", h, vr))
+                .with_oracle(pr == want_p, format!("honest proof for the constant tree of height {} does not expand to the sibling paths", h));
+            if let Some(w) = vf { o = o.with_oracle(false, w); }
+            if let Some(w) = pf { o = o.with_oracle(false, w); }
+            o
+        }
         ("build_env", [cutoff, threads, ds]) => {
             let (threads, mask) = parse_threads(threads)?;
             let digests = ds.digests()?;
@@ -217,6 +244,19 @@ pub fn gen(rng: &mut Rng, thorough: bool, out: &mut Vec<String>) {
         let level = 1u64 << rng.below(k as u64 + 1);
         let c = match rng.below(5) { 0 => "unset".to_string(), 1 => "0".to_string(), _ => rng.around(level, 1).to_string() };
         out.push(format!("mtb build_env {} {} {}", c, rng.pick(&["1", "2", "3", "16", "t16m1", "t3m3"]), fmt_digests(&rand_leaves(rng, n))));
+    }
+    // ---- virtual constant trees: honest proofs for every height up to the supported maximum 31 (32 is rejected)
+    for h in [0usize, 1, 2, 13, 30, 31, 32] {
+        let n = 1usize << h;
+        let d = rand_digest(rng);
+        let r = |rng: &mut Rng| rng.below(n as u64) as usize;
+        let a = r(rng);
+        let lists: Vec<Vec<usize>> = vec![
+            vec![0], vec![n - 1], vec![0, n - 1], vec![n - 1, 0, n / 2], vec![a], vec![a, a ^ 1 & (n - 1)],
+            vec![a, r(rng), r(rng), a, 0], { let mut v = vec![r(rng), r(rng), r(rng), r(rng)]; v.sort_unstable(); v },
+            vec![n / 2, (n / 2).saturating_sub(1)], vec![n - 1, n - 1, n - 1],
+        ];
+        for l in lists { out.push(format!("mtb vproof {} {} {}", h, fmt_digest(&d), f(&l))); }
     }
     // ---- requests with an out-of-range index (boundary set) are errors, never panics, for every tree size
     for h in [0usize, 1, 3] {
